@@ -18,6 +18,11 @@ def Correct {n m : Nat} (o : Op n m) : Prop :=
 
 variable {α}
 
+theorem mmul_eq {n k m : Nat} (A : Mat α n k) (B : Mat α k m) : mmul A B = fun i j => ∑ l, A i l * B l j := by
+  funext i j
+  unfold mmul
+  rw [sumFin_eq_sum]
+
 /-! ### leaves -/
 
 theorem reOK_dense (n m : Nat) : ReOK α (.dense n m) := fun _ _ _ _ => rfl
@@ -26,7 +31,7 @@ theorem correct_dense (n m : Nat) : Correct α (.dense n m) := by
   intro θ δ d U V
   have hD : dDenote (.dense n m) θ δ = δ := rfl
   rw [hD]
-  show (sumFin n fun i => sumFin m fun j => (tab fun i j => sumFin d fun c => U i c * V j c) i j * δ i j) = _
+  show (sumFin n fun i => sumFin m fun j => (fun i j => sumFin d fun c => U i c * V j c) i j * δ i j) = _
   simp only [tab_eq, sumFin_eq_sum]
   have hg : (fun i j => ∑ c, U i c * V j c) = (Matrix.of U * (Matrix.of V)ᵀ : Matrix (Fin n) (Fin m) α) := by
     ext i j; simp [Matrix.mul_apply]
@@ -49,7 +54,7 @@ theorem correct_diag (n : Nat) : Correct α (.diag n) := by
   intro θ δ d U V
   rw [bilS_eq_sum]
   simp only [dDenote_diag]
-  show (sumFin n fun i => (tab1 fun i => sumFin d fun c => U i c * V i c) i * δ i) = _
+  show (sumFin n fun i => (fun i => sumFin d fun c => U i c * V i c) i * δ i) = _
   simp only [tab1_eq, sumFin_eq_sum, mul_ite, ite_mul, mul_zero, zero_mul, Finset.sum_ite_eq, Finset.mem_univ, if_true,
     Finset.sum_mul]
   rw [Finset.sum_comm]
@@ -110,21 +115,21 @@ theorem correct_constMul {n m : Nat} (o : Op n m) (hr : ReOK α o) (h : Correct 
     funext i j; exact dDenote_constMul o hr θ δ i j
   rw [hD, bilS_add, bilS_const, bilS_scale, ← h θ.1 δ.1 d (fun i c => U i c * θ.2) V]
   show pair o (bilinDeriv o θ.1 (fun i c => U i c * θ.2) V) δ.1
-      + (sumFin n fun i => sumFin d fun c => U i c * Mat.mul (denote o θ.1) V i c) * δ.2 = _
-  simp only [Mat.mul, tab_eq, sumFin_eq_sum]
+      + (sumFin n fun i => sumFin d fun c => U i c * getV (memoV (mmul (denote o θ.1) V)) i c) * δ.2 = _
+  simp only [getV_memoV, mmul, sumFin_eq_sum]
   ring
 
 theorem reOK_matmul {n k m : Nat} (a : Op n k) (b : Op k m) (ha : ReOK α a) (hb : ReOK α b) : ReOK α (.matmul a b) := by
   intro θ δ i j
-  show (Mat.mul (denote a (mkDual a θ.1 δ.1)) (denote b (mkDual b θ.2 δ.2)) i j).re = Mat.mul (denote a θ.1) (denote b θ.2) i j
-  simp only [Mat.mul, tab_eq, sumFin_re, sumFin_eq_sum, Dual.mul_re, ha θ.1 δ.1, hb θ.2 δ.2]
+  show (mmul (denote a (mkDual a θ.1 δ.1)) (denote b (mkDual b θ.2 δ.2)) i j).re = mmul (denote a θ.1) (denote b θ.2) i j
+  simp only [mmul, tab_eq, sumFin_re, sumFin_eq_sum, Dual.mul_re, ha θ.1 δ.1, hb θ.2 δ.2]
 
 theorem dDenote_matmul {n k m : Nat} (a : Op n k) (b : Op k m) (ha : ReOK α a) (hb : ReOK α b)
     (θ δ : Param α (.matmul a b)) (i : Fin n) (j : Fin m) :
     dDenote (.matmul a b) θ δ i j
       = (∑ l, denote a θ.1 i l * dDenote b θ.2 δ.2 l j) + ∑ l, dDenote a θ.1 δ.1 i l * denote b θ.2 l j := by
-  show (Mat.mul (denote a (mkDual a θ.1 δ.1)) (denote b (mkDual b θ.2 δ.2)) i j).eps = _
-  simp only [Mat.mul, tab_eq, sumFin_eps, Dual.mul_eps, ha θ.1 δ.1, hb θ.2 δ.2, Finset.sum_add_distrib, dDenote]
+  show (mmul (denote a (mkDual a θ.1 δ.1)) (denote b (mkDual b θ.2 δ.2)) i j).eps = _
+  simp only [mmul, tab_eq, sumFin_eps, Dual.mul_eps, ha θ.1 δ.1, hb θ.2 δ.2, Finset.sum_add_distrib, dDenote]
 
 theorem correct_matmul {n k m : Nat} (a : Op n k) (b : Op k m) (hra : ReOK α a) (hrb : ReOK α b)
     (ha : Correct α a) (hb : Correct α b) : Correct α (.matmul a b) := by
@@ -133,10 +138,11 @@ theorem correct_matmul {n k m : Nat} (a : Op n k) (b : Op k m) (hra : ReOK α a)
       (∑ l, denote a θ.1 i l * dDenote b θ.2 δ.2 l j) + ∑ l, dDenote a θ.1 δ.1 i l * denote b θ.2 l j := by
     funext i j; exact dDenote_matmul a b hra hrb θ δ i j
   rw [hD, bilS_add, ← bilS_mul_left, ← bilS_mul_right]
-  show pair a (bilinDeriv a θ.1 U (Mat.mul (denote b θ.2) V)) δ.1
-      + pair b (bilinDeriv b θ.2 (Mat.mul (Mat.transpose (denote a θ.1)) U) V) δ.2 = _
-  rw [ha θ.1 δ.1 d, hb θ.2 δ.2 d, add_comm]
-  simp only [Mat.mul, Mat.transpose, tab_eq, sumFin_eq_sum]
+  show pair a (bilinDeriv a θ.1 U (getV (memoV (mmul (denote b θ.2) V)))) δ.1
+      + pair b (bilinDeriv b θ.2 (getV (memoV (mmul (Mat.transpose (denote a θ.1)) U))) V) δ.2 = _
+  rw [getV_memoV, getV_memoV, ha θ.1 δ.1 d, hb θ.2 δ.2 d, add_comm]
+  rw [mmul_eq, mmul_eq]
+  rfl
 
 theorem reOK_sum {n m : Nat} (a b : Op n m) (ha : ReOK α a) (hb : ReOK α b) : ReOK α (.sum a b) := by
   intro θ δ i j
